@@ -305,9 +305,21 @@ def recheck(argv):
         if f.startswith("results_"):
             rows += [json.loads(l) for l in open(os.path.join(OUT, f))]
     jobs = []
+    tri = {}
+    tp = os.path.join(H, "docs", "mutation_triage.json")
+    if os.path.exists(tp) and "--all" not in argv:
+        tri = json.load(open(tp))          # triaged survivors are not run again (use --all to do so)
+    old = {}
+    rp = os.path.join(OUT, "recheck.jsonl")
+    if os.path.exists(rp):
+        for l in open(rp):
+            o = json.loads(l)
+            old[(o["property"], o["id"])] = l
+    seen = set()
     for r in rows:
-        if r.get("exit") in (1, "suite"):
+        if r.get("exit") in (1, "suite") or r["id"] in tri or (r["property"], r["id"]) in seen:
             continue
+        seen.add((r["property"], r["id"]))
         try:
             mutated_source(r)
         except RuntimeError:
@@ -316,6 +328,10 @@ def recheck(argv):
         jobs.append((r, [r["property"]] + others))
     print("recheck jobs:", len(jobs))
     out = open(os.path.join(OUT, "recheck.jsonl"), "w")
+    redo = {(r["property"], r["id"]) for r, _p in jobs}
+    for k, l in old.items():   # earlier second-pass results of mutants that are not run again are kept
+        if k not in redo:
+            out.write(l)
     with Pool(j) as p:
         for i, res in enumerate(p.imap_unordered(recheck_one, jobs)):
             out.write(json.dumps(res) + "\n")
